@@ -163,6 +163,8 @@ def strategy(tier: str):
         'no_update': st.sampled_from([False, False, False, False, True]),
         'api': st.sampled_from(['listener', 'listener', 'handlers']),
         'one_shot_handler': st.booleans(),
+        # the application builds the handlers=[...] argument of all its browsers in one list object, which it clears afterwards
+        'app_reuses_its_handlers_list': st.booleans(),
     })
 
 
@@ -280,7 +282,15 @@ class Exec:
                             holder['br'].service_state_changed.unregister_handler(one_shot)
 
                     hs = [one_shot, on_change] if self.case.get('one_shot_handler') else [on_change]
+                    if self.case.get('app_reuses_its_handlers_list'):
+                        mine = self.__dict__.setdefault('app_handlers_list', [])
+                        mine.clear()
+                        mine.extend(hs)
+                        hs = mine
+                        self.stats['handlers_list_reused_and_cleared_by_the_application'] = 1
                     br = AsyncServiceBrowser(zc, types if len(types) > 1 else types[0], handlers=hs)
+                    if hs is self.__dict__.get('app_handlers_list'):
+                        hs.clear()                     # the list is the application's own
                     holder['br'] = br
                     self.stats['browser_with_handlers'] = self.stats.get('browser_with_handlers', 0) + 1
                     if len(hs) > 1:
